@@ -290,6 +290,19 @@ func Atomic(fn func()) {
 	fn()
 }
 
+// YieldSpawn is the scheduling point before a go statement: it never takes the fast path.
+func YieldSpawn(site string) {
+	s := active.Load()
+	if s == nil {
+		return
+	}
+	g := goid()
+	if g == s.rootGoid || g == atomic.LoadUint64(&s.atomicGoid) {
+		return
+	}
+	s.park(g, site, nil, nil)
+}
+
 // fastYield decides, in the running task itself, to keep running without a round trip through the
 // scheduler (only for the strategies whose default is "keep the running task": sticky, rr). The decision
 // is an entry of the choice vector like any other; a real scheduling point is forced at least every
